@@ -68,6 +68,13 @@ let handle kind c =
          diff "model-threads-not-done" ~model:"some thread not Done" ~impl:"all calls returned");
  if faults_new > 0 then prop "entered-through-closed-mapping" (Printf.sprintf "%d accesses by a call that entered its reader/flush section AFTER the mapping was closed (scenario %s)" faults_new scen);
     if faults > 0 then prop "use-after-unmap" (Printf.sprintf "%d accesses through a closed mapping (scenario %s)" faults scen)
+  | "stackpersist" ->
+    let n = next_int c in
+    let bad = next_int c in
+    let detail = next_bytes c in
+    if n = 0 then diff "stackpersist-empty" ~model:"some stack counters" ~impl:"none";
+    if bad > 0 then
+      prop "quiescent" (Printf.sprintf "%d of %d counters of stack counters with names near the length limit are not persisted (file open, all calls returned): %s" bad n (string_of_bytes detail))
   | "multi" ->
     (* oracle-only scenario outside the single-counter model *)
     let status = next c in
